@@ -66,11 +66,11 @@ def Chk.name : Chk → String
   | .outOfModel => "out_of_model"
   | .structural => "structural"
   | .ctorPoststate => "D_ctor_poststate"
-  | .kindUnion => "D_kind_union"
-  | .kindAt => "D_kind_at_path"
+  | .kindUnion => "D_kind_operation"
+  | .kindAt => "D_kind_operation"
   | .negIndex => "D_negative_index_kind"
-  | .kindInsert => "D_kind_insert"
-  | .kindMerge => "D_merge_kind"
+  | .kindInsert => "D_kind_operation"
+  | .kindMerge => "D_kind_operation"
   | .kindRemove => "D_del_typing"
   | .delTyping => "D_del_typing"
   | .shortCircuitVar => "D_short_circuit_defines_var"
@@ -110,6 +110,20 @@ def pickClass (l : List Chk) : Option Chk :=
     else match best with
       | none => some c
       | some b => if c.priority < b.priority then some c else some b) none
+
+/-- can a failure of this side condition leave a variable / the event / the metadata outside its
+    reported kind (as opposed to only mis-reporting a result, `returns` or fallibility)? -/
+def Chk.corruptsState : Chk → Bool
+  | .delTyping | .kindRemove | .negIndex | .errPartialEffects | .shortCircuitVar | .divRhsEffects
+  | .scopeLeak | .kindInsert | .kindMerge | .kindUnion | .kindAt => true
+  | _ => false
+
+/-- naming for a failure of the final event / metadata: a state-corrupting side condition if one
+    failed, any otherwise -/
+def pickStateClass (l : List Chk) : Option Chk :=
+  match pickClass (l.filter Chk.corruptsState) with
+  | some c => some c
+  | none => pickClass l
 
 /-- `[c]` when the condition fails -/
 def chk (c : Chk) (ok : Bool) : List Chk := if ok then [] else [c]
